@@ -337,7 +337,7 @@ Ltac c19_cases :=
 
 Lemma diff_obj_nonneg o1 o2 : 0 <= diff_obj o1 o2.
 Proof.
-  unfold diff_obj. destruct (zassoc (obj_tag o1) diff_switch) as [z|]; [|lia].
+  unfold diff_obj, diff_obj_tag. destruct (zassoc (obj_tag o1) diff_switch) as [z|]; [|lia].
   destruct (o_body o1), (o_body o2); c19_cases;
     first [lia | apply diff_sds_m_nonneg | apply diff_gr_m_nonneg | apply diff_vs_m_nonneg].
 Qed.
@@ -516,13 +516,13 @@ Proof. unfold diff_vs_m. rewrite (Z.eqb_sym n2 n1), (list_eqb_sym _ field_eqb_sy
 
 Lemma diff_obj_refl o : diff_obj o o = 0.
 Proof.
-  unfold diff_obj, obj_tag. destruct (o_body o); c19_cases;
+  unfold diff_obj, diff_obj_tag, obj_tag. destruct (o_body o); c19_cases;
     first [reflexivity | apply diff_sds_m_refl | apply diff_gr_m_refl | apply diff_vs_m_refl].
 Qed.
 
 Lemma diff_obj_sym o1 o2 : diff_obj o1 o2 = diff_obj o2 o1.
 Proof.
-  unfold diff_obj, obj_tag. destruct (o_body o1), (o_body o2); c19_cases;
+  unfold diff_obj, diff_obj_tag, obj_tag. destruct (o_body o1), (o_body o2); c19_cases;
     first [reflexivity | apply diff_sds_m_sym | apply diff_gr_m_sym | apply diff_vs_m_sym | discriminate | idtac].
 Qed.
 
@@ -1154,7 +1154,7 @@ Qed.
 Lemma diff_obj_zero_eq o1 o2 : o_name o1 = o_name o2 -> comparable_body (o_body o1) (o_body o2) -> diff_obj o1 o2 = 0 -> o1 = o2.
 Proof.
   destruct o1 as [n1 b1], o2 as [n2 b2]. cbn [o_name o_body]. intros <- C E. f_equal.
-  unfold diff_obj, obj_tag in E. cbn [o_body] in E.
+  unfold diff_obj, diff_obj_tag, obj_tag in E. cbn [o_body] in E.
   destruct b1, b2; cbn [comparable_body] in C; try contradiction.
   - destruct C as (<- & <- & NE & L & D1 & D2 & FA).
     change (diff_sds_m nt dims vals attrs nt dims vals0 attrs0 = 0) in E.
@@ -1237,4 +1237,102 @@ Proof.
   destruct (Z.eqb_spec (hdiff_m f1 f2) 0) as [E|E], (same_content f1 f2) eqn:S; try reflexivity.
   - apply I in E. congruence.
   - exfalso. apply E. apply I. reflexivity.
+Qed.
+
+(* ------------------------------------------------------------------------------------------ *)
+(** * The object table keeps every entry when it grows; hdp's dumpvd prints every record exactly once *)
+
+Lemma reset_from_id : forall l from i, i + Z.of_nat (length l) <= from -> reset_from from i l = l.
+Proof.
+  induction l as [|[t o] l IH]; intros from i H; [reflexivity|]. cbn [reset_from length] in *.
+  destruct (Z.leb_spec from i); [lia|]. f_equal. apply IH. lia.
+Qed.
+
+Lemma dtable_add_objs t o : dt_objs (dtable_add_m t o) = dt_objs t ++ [(obj_tag o, o)].
+Proof.
+  unfold dtable_add_m. destruct (negb _); cbn [dt_objs dt_size]; [|reflexivity].
+  unfold dtable_grow_from. rewrite reset_from_id by lia. reflexivity.
+Qed.
+
+Lemma dtable_fold_objs : forall l t, dt_objs (fold_left dtable_add_m l t) = dt_objs t ++ map (fun o => (obj_tag o, o)) l.
+Proof.
+  induction l as [|o l IH]; intros t; simpl; [rewrite app_nil_r; reflexivity|].
+  rewrite IH, dtable_add_objs, <- app_assoc. reflexivity.
+Qed.
+
+Lemma table_keeps_tags_lemma : forall l, table_tags l = map obj_tag l /\ map snd (dt_objs (dtable_build l)) = l.
+Proof.
+  intros l. unfold table_tags, dtable_build. rewrite dtable_fold_objs. cbn [dtable_init_m dt_objs app].
+  rewrite !map_map. split; [reflexivity|]. cbn [snd]. apply map_id.
+Qed.
+
+Lemma cmatch_nil_l l2 : cmatch [] l2 = map Only2 l2.
+Proof. destruct l2; reflexivity. Qed.
+
+Lemma costs_only2 : forall l tags, costs_tab (map Only2 l) tags = 0 /\ zsum (map entry_cost (map Only2 l)) = 0.
+Proof. induction l as [|b l IH]; intros tags; [split; reflexivity|]. cbn [map costs_tab zsum entry_cost]. destruct (IH tags). split; lia. Qed.
+
+Lemma costs_only1 : forall l tags, costs_tab (map Only1 l) tags = 0 /\ zsum (map entry_cost (map Only1 l)) = 0.
+Proof.
+  induction l as [|b l IH]; intros tags; [split; reflexivity|]. cbn [map costs_tab zsum entry_cost].
+  destruct (IH (tl tags)). split; lia.
+Qed.
+
+Lemma costs_tab_match : forall l1 l2, costs_tab (cmatch l1 l2) (map obj_tag l1) = match_m l1 l2.
+Proof.
+  unfold match_m. induction l1 as [|a l1 IH1]; intros l2.
+  - rewrite cmatch_nil_l. destruct (costs_only2 l2 (map obj_tag [])). congruence.
+  - induction l2 as [|b l2 IH2].
+    + rewrite cmatch_nil_r. destruct (costs_only1 (a :: l1) (map obj_tag (a :: l1))). congruence.
+    + rewrite cmatch_cons. destruct (strcmp (o_name a) (o_name b)).
+      * cbn [map costs_tab zsum entry_cost tl]. rewrite IH1. reflexivity.
+      * cbn [map costs_tab zsum entry_cost tl]. rewrite IH1. reflexivity.
+      * cbn [costs_tab zsum entry_cost map]. cbn [map] in IH2. rewrite IH2. reflexivity.
+Qed.
+
+Lemma hdiff_tab_lemma : forall f1 f2, hdiff_tab_m f1 f2 = hdiff_m f1 f2 /\ hdiff_tab_exit_m f1 f2 = hdiff_exit_m f1 f2.
+Proof.
+  intros f1 f2. assert (E : hdiff_tab_m f1 f2 = hdiff_m f1 f2).
+  { unfold hdiff_tab_m, hdiff_m, match_tab_m. rewrite (proj1 (table_keeps_tags_lemma _)), costs_tab_match. reflexivity. }
+  split; [assumption|]. unfold hdiff_tab_exit_m, hdiff_exit_m. rewrite E. reflexivity.
+Qed.
+
+Lemma zseqn_app : forall n m s, zseqn s (n + m) = zseqn s n ++ zseqn (s + Z.of_nat n) m.
+Proof.
+  induction n as [|n IH]; intros m s.
+  - simpl. rewrite Z.add_0_r. reflexivity.
+  - cbn [Nat.add zseqn app]. rewrite IH. do 3 f_equal. lia.
+Qed.
+
+Lemma zseqn_length : forall n s, length (zseqn s n) = n.
+Proof. induction n; intros; simpl; auto. Qed.
+
+Lemma vd_loop_all : forall fuel nv chunk done buf, 1 <= chunk -> 0 <= done <= nv -> (Z.to_nat (nv - done) < fuel)%nat ->
+  vd_loop fuel nv chunk done buf = Some (zseqn done (Z.to_nat (nv - done))).
+Proof.
+  induction fuel as [|f IH]; intros nv chunk done buf Hc Hd Hf; [lia|].
+  cbn [vd_loop]. unfold dumpvd_continue, dumpvd_more, dumpvd_print_bound.
+  destruct (Z.eqb_spec done nv) as [->|N]; cbn [negb].
+  - rewrite Z.sub_diag. reflexivity.
+  - change ((if true then 1 else 0) =? 0) with false. cbv iota.
+    set (count := if negb ((if chunk <? nv - done then 1 else 0) =? 0) then chunk else nv - done).
+    assert (Cn : 1 <= count <= nv - done).
+    { subst count. destruct (Z.ltb_spec chunk (nv - done)); simpl; lia. }
+    clearbody count. change (1 =? 0) with false. cbv iota.
+    rewrite (IH nv chunk (done + count) _ Hc); [| lia | lia].
+    rewrite firstn_app, zseqn_length, Nat.sub_diag, firstn_all2 by (rewrite zseqn_length; lia).
+    cbn [firstn]. rewrite app_nil_r.
+    replace (Z.to_nat (nv - done)) with (Z.to_nat count + Z.to_nat (nv - (done + count)))%nat by lia.
+    rewrite zseqn_app. do 3 f_equal. lia.
+Qed.
+
+Lemma dumpvd_records_lemma : forall nv vsize, 0 <= nv -> 1 <= vsize <= BUFFER ->
+  dumpvd_m nv vsize = Some (zseqn 0 (Z.to_nat nv)).
+Proof.
+  intros nv vsize Hn Hv. unfold dumpvd_m, dumpvd_split, dumpvd_chunk, BUFFER in *.
+  destruct (Z.ltb_spec 1048576 (nv * vsize)) as [L|L].
+  - change (negb (1 =? 0)) with true. cbv iota. rewrite vd_loop_all; [rewrite Z.sub_0_r; reflexivity | | lia | lia].
+    apply Z.quot_le_lower_bound; lia.
+  - change (negb (0 =? 0)) with false. cbv iota. destruct (Z.eq_dec nv 0) as [->|NZ]; [reflexivity|].
+    rewrite vd_loop_all; [rewrite Z.sub_0_r; reflexivity | lia | lia | lia].
 Qed.
